@@ -14,6 +14,9 @@ import traceback
 
 from . import VERIF_ROOT, REPO_ROOT, NATIVE_PY
 
+# scratch runs against another tree (PYVC_REPO=<worktree>) may redirect what they write (evidence, replays)
+OUT_ROOT = os.environ.get('PYVC_OUT_DIR') or VERIF_ROOT
+
 EXIT_OK, EXIT_VIOLATION, EXIT_UNDECIDED, EXIT_CRASH = 0, 1, 2, 3
 FAST_MS = 1500   # obligations discharged faster than this on the pinned tree count as 'fast proofs'
 
@@ -43,6 +46,7 @@ def _worker(arg):
             return out
         out['meta'] = meta
         out['gen_s'] = round(time.time() - t0, 3)
+        n_unknown = 0
         for vc in vcs:
             rec = {'name': vc.name, 'kind': vc.kind, 'info': {k: v for k, v in vc.info.items()
                                                                if isinstance(v, (int, str, float, bool))}}
@@ -58,8 +62,12 @@ def _worker(arg):
                            backend='z3', ms=0)
                 out['vcs'].append(rec)
                 continue
+            short = n_unknown >= 3 and tier != 'thorough'
             r = solve.check_valid(vc.pc, vc.goal, all_backends=(tier == 'thorough'),
-                                  z3_timeout_ms=getattr(chk, 'z3_timeout_ms', None), ematch_probe=probe)
+                                  z3_timeout_ms=3000 if short else getattr(chk, 'z3_timeout_ms', None),
+                                  ematch_probe=probe, short=short)
+            if r['verdict'] == 'unknown':
+                n_unknown += 1
             rec.update(verdict=r['verdict'], backend=r['backend'], ms=r['ms'], detail=r['detail'], all=r.get('all'),
                        ematch=r.get('ematch'))
             rec['goal_head'] = solve.head(vc.goal, 300)
@@ -186,7 +194,7 @@ def report(prop, a, checks, results, native, seed, t0):
     fn_meta = []
     trusted, assumptions = set(), set()
     covers = 0
-    replays_dir = os.path.join(VERIF_ROOT, 'replays')
+    replays_dir = os.path.join(OUT_ROOT, 'replays')
     for res in results:
         if res['error']:
             crashes.append(f"{res['id']}: {res['error'][-1500:]}")
@@ -345,8 +353,8 @@ def report(prop, a, checks, results, native, seed, t0):
             'recursion depth and memory unbounded', 'logging calls neither raise nor change program state'}),
         'wall_s': round(wall, 2), 'violations': len(violations),
     }
-    os.makedirs(os.path.join(VERIF_ROOT, 'evidence'), exist_ok=True)
-    with open(os.path.join(VERIF_ROOT, 'evidence', f'{prop}.json'), 'w') as f:
+    os.makedirs(os.path.join(OUT_ROOT, 'evidence'), exist_ok=True)
+    with open(os.path.join(OUT_ROOT, 'evidence', f'{prop}.json'), 'w') as f:
         json.dump(evidence, f, indent=1, default=str)
     print(f'{prop}: {n_disch}/{n_oblig} obligations discharged ({len(proved_names)} names), '
           f'{len(violations)} violations, {len(known_hits)} known findings, {len(undecided)} undecided, '
